@@ -14,13 +14,14 @@ from harness.core import Case, ImplResult, frac
 
 PID = 'C01'
 LEAN_MODULES = ['ThermoVerif.Props.C01']
-RULE = ('operation histories (mix_from / Stream.sum / split_to / separate_out / copy_flow / scale / * /) over 3-8 real '
+RULE = ('operation histories (mix_from / Stream.sum / split_to / separate_out / Stream.copy_flow / MultiStream.copy_flow / scale / * /) over 3-8 real '
         'streams on three real property packages built per case from 6 bundled chemicals (a permuted superset and two '
         'permuted sub-packages; ~12% of cases use a non-superset package to reach the undefined-chemical branch); '
         'a deterministic grid first (receiver kind x every non-empty subset of the phases s/l/g/S/L as inlet phases x '
         'package relation x receiver among the inlets; split grid: feed kind x outlet kinds x package relation x '
         'scalar/vector split incl. 0 and 1; separate grid: the four kind pairings x package relation x equal/different '
-        'phase tuples), then random histories generated adaptively on the real objects; flows and factors are dyadic '
+        'phase tuples; copy grids: source kind x package relation x ID form x exclude, and for multi-phase destinations '
+        'source phases equal / permuted / more x ID form x exclude x phase argument), then random histories generated adaptively on the real objects; flows and factors are dyadic '
         'so every comparison is exact; a case is non-trivial when at least one operation moved a non-zero amount; '
         'distinct = distinct op sequences')
 ASSUMPTIONS = [
@@ -30,9 +31,11 @@ ASSUMPTIONS = [
     'sparse rows are modelled by their dense image; stored zeros do not occur on the dyadic alphabet (C09 covers the sparse invariants)',
     'streams own their rows: phase views (ms["l"]), flow proxies and linked streams are not generated; aliasing is limited to '
     'the same stream appearing in several roles (receiver among the inlets, feed as outlet, source as destination)',
-    'the model describes the code with fixes_proposed/C01-1..C01-8 and C10-2 applied; until they are committed the check '
-    'reports the corresponding failing inputs',
-    'MultiStream.copy_flow (multi-phase destination) is exercised by the oracle only (not modelled)',
+    'the model describes the code with fixes_proposed/C01-1..C01-8, C10-2 and C12-1 applied; until they are committed the '
+    'check reports the corresponding failing inputs; six combinations that the code rejects or mishandles are mirrored and '
+    'listed as known findings (Stream.split_to onto a MultiStream outlet, two argument forms of Stream.copy_flow, three of '
+    'MultiStream.copy_flow)',
+    'an empty single-phase outlet whose phase a multi-phase feed lacks is not generated (its conversion is C12-3)',
     'after a Python exception the case ends: the state left behind by a failed call is not compared',
 ]
 TRUSTED = ['Lean 4.33 kernel', 'correspondence harness harness/props/c01.py + lean/Driver/C01.lean',
@@ -88,6 +91,7 @@ class Universe:
     def __init__(self):
         self.pkgs = []       # list of (thermo, [chemical ids])
         self.streams = []
+        self.tags = set()    # which input classes the case reached (for the coverage histogram)
 
     # ---- observation (real objects only) -------------------------------------------------
     def pkg_of(self, s):
@@ -190,7 +194,12 @@ class Universe:
             if t[3] == '*': ids = ...
             elif t[3].startswith('='): ids = NAMES[int(t[3][1:])]
             else: ids = tuple(NAMES[c] for c in parse_ids(t[3]))
-            S[int(t[1])].copy_flow(S[int(t[2])], ids, remove=(t[4] == '1'), exclude=(t[5] == '1'))
+            d = S[int(t[1])]
+            if self.is_multi(d):
+                ph = ... if len(t) < 7 or t[6] == '*' else t[6]
+                d.copy_flow(S[int(t[2])], ph, ids, remove=(t[4] == '1'), exclude=(t[5] == '1'))
+            else:
+                d.copy_flow(S[int(t[2])], ids, remove=(t[4] == '1'), exclude=(t[5] == '1'))
         elif op == 'scale':
             S[int(t[1])].scale(float(Fraction(t[2])))
         elif op == 'idiv':
@@ -250,6 +259,12 @@ def oracle(U, line, before, exc):
             cfg = 'S<-M.other-package'
         else: cfg = ('M' if rmulti else 'S') + ('<-other-package' if other else '<-same-package')
         inq = all(set(before[i]['pkg']) <= rpk for i in ins)
+        U.tags.add(f'in:mix:{cfg}')
+        nself = sum(1 for i in ins if op == 'mix' and i == r)
+        if nself: U.tags.add('in:mix:receiver-among-inlets' + ('-twice' if nself > 1 else ''))
+        U.tags.add(f'in:mix:{min(len(live), 3)}{"+" if len(live) >= 3 else ""}-nonempty-inlets')
+        if rmulti and any(not (p in rphases) and resolvable(rphases, p) for i in live for p, _ in before[i]['rows']):
+            U.tags.add('in:mix:case-variant-phase')
         if exc is not None:
             return raised(cfg) if inq else None
         after = now(r)
@@ -291,6 +306,8 @@ def oracle(U, line, before, exc):
                     else: continue
                     break
         inq = set(fb['pkg']) <= set(ab['pkg']) and set(fb['pkg']) <= set(bb['pkg'])
+        U.tags.add(f'in:split:{cfg}'); U.tags.add('in:split:' + ('scalar' if t[4] == 's' else 'vector'))
+        if f in (a, b): U.tags.add('in:split:feed-is-outlet')
         if exc is not None:
             return raised(cfg) if inq else None
         na, nb = now(a), now(b)
@@ -316,6 +333,7 @@ def oracle(U, line, before, exc):
         else:
             cfg = ('M' if xb['multi'] else 'S') + '-' + ('M' if yb['multi'] else 'S') + ('.other-package' if other else '') \
                 + ('.same-phases' if xb['multi'] and yb['multi'] and xph == [p for p, _ in yb['rows']] else '')
+        U.tags.add(f'in:sep:{cfg}')
         if exc is not None:
             return raised(cfg)
         after = now(x)
@@ -325,6 +343,8 @@ def oracle(U, line, before, exc):
                 return (f'sep:{cfg}:remainder', f'after `{line}` chemical {NAMES[c]}: {after.get(c, 0)} left, mixture - separated = {want}')
         return None
 
+    if op == 'copy' and before[int(t[1])]['multi']:
+        return oracle_copy_multi(U, line, t, before, exc, raised)
     if op == 'copy':
         d, s = int(t[1]), int(t[2])
         db, sb = before[d], before[s]
@@ -346,6 +366,7 @@ def oracle(U, line, before, exc):
             cfg += ('' if not sb['multi'] else ('.same-phases' if dph == sph else '.other-phases'))
             if not sb['multi'] and not resolvable(dph, sph[0]): cfg += '.new-phase'
         inq = set(spk) <= set(db['pkg'])
+        U.tags.add(f'in:copy:{cfg}.{form}' + ('.exclude' if ex else ''))
         if exc is not None:
             return raised(cfg) if inq else None
         nd, ns = now(d), now(s)
@@ -373,6 +394,57 @@ def oracle(U, line, before, exc):
         if j != i and now(i) != before[i]['tot']:
             return (f'{op}:{cfg}:operand-changed', f'`{line}` changed its operand')
         return None
+    return None
+
+
+def oracle_copy_multi(U, line, t, before, exc, raised):
+    """MultiStream.copy_flow(other, phase, IDs, remove=True, exclude=): the selected entries (phase x chemical, by name)
+    leave the source and must be found in the destination; nothing else leaves the source."""
+    d, s = int(t[1]), int(t[2])
+    db, sb = before[d], before[s]
+    rm, ex = t[4] == '1', t[5] == '1'
+    ph = '*' if len(t) < 7 else t[6]
+    if not rm or d == s or not sb['nonneg']: return None
+    spk = sb['pkg']
+    if t[3] == '*': sel = list(spk); form = 'all'
+    elif t[3].startswith('='): sel = [int(t[3][1:])]; form = 'str'
+    else: sel = parse_ids(t[3]); form = 'seq'
+    if any(c not in spk for c in sel): return None
+    dph = [p for p, _ in db['rows']]; sph = [p for p, _ in sb['rows']]
+    # selected entries, by name: phases are named through the destination's phase indexer (exact, else other case)
+    def rd(p):
+        return p if p in dph else (swapc(p) if swapc(p) in dph else None)
+    target = None if ph == '*' else (rd(ph) or '')
+    def sel_entry(p, c):
+        inside = (target is None or rd(p) == target) and (c in sel)
+        return (not inside) if ex else inside
+    moved = {c: Fraction(0) for c in spk}
+    for p, r in sb['rows']:
+        for c, v in zip(spk, r):
+            if sel_entry(p, c): moved[c] += v
+    if not db['nonneg']: return None
+    if sb['multi'] and dph != sph: cfg = 'M<-M.different-phases'
+    elif ex and form == 'all': cfg = 'M<-exclude-all-chemicals'
+    elif sb['multi']: cfg = 'M<-M.same-phases'
+    elif ex and target is not None and rd(sph[0]) != target: cfg = 'M<-S.exclude.other-phase'
+    else: cfg = 'M<-S'
+    same_chem = list(db['pkg']) == list(spk)
+    U.tags.add(f'in:copy:{cfg}.{form}' + ('.exclude' if ex else '') + ('.phase' if ph != '*' else ''))
+    if exc is not None:
+        ok_phases = all(resolvable(dph, p) for p, r in sb['rows'] if any(r) or not sb['multi'])
+        inq = same_chem and ok_phases and (ph == '*' or resolvable(dph, ph))
+        if not inq: return None
+        if cfg == 'M<-M.different-phases':
+            return (f'copy:{cfg}:rows-by-position', f'`{line}` raised {type(exc).__name__}: {str(exc)[:100]} (the destination\'s '
+                    f'phase index is applied to the rows of a source with other phases)')
+        return raised(cfg)
+    nd, ns = U.totals(U.streams[d]), U.totals(U.streams[s])
+    for c in spk:
+        got = nd.get(c, 0)
+        if ns.get(c, 0) != sb['tot'][c] - moved[c] or got < moved[c] or (db['empty'] and got != moved[c]):
+            return (f'copy:{cfg}:' + ('rows-by-position' if cfg == 'M<-M.different-phases' else 'material'), f'after `{line}` chemical {NAMES[c]}: the selected entries of the source held {moved[c]} of '
+                    f'{sb["tot"][c]}; the source now holds {ns.get(c, 0)}, the destination (holding {db["tot"].get(c, 0)} before) '
+                    f'holds {got} (material lost or duplicated)')
     return None
 
 
@@ -417,7 +489,7 @@ def run_ops(ops):
 def run_impl(case: Case) -> ImplResult:
     U, outs, failures, moved = run_ops(case.ops)
     kinds = sorted({l.split(' ')[0] for l in case.ops if not l.startswith(('pkg', 'new'))})
-    tags = list(kinds) + [o for o in outs if o.startswith('err=')]
+    tags = list(kinds) + [o for o in outs if o.startswith('err=')] + sorted(U.tags)
     return ImplResult(model_in=list(case.ops), outs=outs, failures=failures, tags=tags,
                       nontrivial=(tuple(case.ops) if moved else None))
 
@@ -527,6 +599,13 @@ def gen_op(rng, U):
         fp = set(U.pkg_of(S[f]))
         good = [i for i in idx if fp <= set(U.pkg_of(S[i]))]
         pool = good if (good and rng.random() < 0.93) else idx
+        if not U.is_multi(S[f]) and rng.random() < 0.85:
+            # a single-phase feed onto a multi-phase outlet is rejected by the code (known finding): keep its share small
+            sp = [i for i in pool if not U.is_multi(S[i])]
+            if sp: pool = sp
+        elif U.is_multi(S[f]) and rng.random() < 0.5:
+            mp = [i for i in pool if U.is_multi(S[i]) and i != f]
+            if mp: pool = mp + [i for i in pool if i not in mp][:1]
         a = rng.choice(pool); b = rng.choice(pool)
         if a == b and rng.random() < 0.9 and len(pool) > 1:
             b = rng.choice([i for i in pool if i != a])
@@ -550,9 +629,14 @@ def gen_op(rng, U):
         a = rng.choice(good); b = rng.choice(good)
         return [f'mix {r} {a},{b}', f'sep {r} {b}']
     if kind == 'copy':
-        if not single: return [f'scale {rng.choice(idx)} 2']
-        d = rng.choice(single); s = rng.choice(idx)
-        if s == d and rng.random() < 0.9: s = rng.choice(idx)
+        multi = [i for i in idx if U.is_multi(S[i])]
+        if multi and (not single or rng.random() < 0.4):
+            d = rng.choice(multi)
+            same = [i for i in idx if list(U.pkg_of(S[i])) == list(U.pkg_of(S[d])) and i != d]
+            s = rng.choice(same) if (same and rng.random() < 0.9) else rng.choice(idx)
+        else:
+            d = rng.choice(single); s = rng.choice(idx)
+            if s == d and rng.random() < 0.9: s = rng.choice(idx)
         sp = U.pkg_of(S[s])
         r = rng.random()
         if r < 0.35: ids = '*'
@@ -564,6 +648,10 @@ def gen_op(rng, U):
             ids = ','.join(map(str, sel)) if sel else '()'
         rm = '1' if rng.random() < 0.75 else '0'
         ex = '1' if rng.random() < 0.25 else '0'
+        if U.is_multi(S[d]):
+            r = rng.random()
+            php = '*' if r < 0.6 else (rng.choice(S[d].phases) if r < 0.92 else rng.choice(PHASES))
+            return [f'copy {d} {s} {ids} {rm} {ex} {php}']
         return [f'copy {d} {s} {ids} {rm} {ex}']
     if kind in ('scale', 'mul'):
         return [f'{kind} {rng.choice(idx)} {fr(rng.choice([Fraction(0), Fraction(1, 2), Fraction(1, 4), Fraction(2), Fraction(3), Fraction(3, 2), Fraction(1)]))}']
@@ -641,6 +729,12 @@ def grid_cases(rng):
             for form in ('*', 'str', 'seq'):
                 for ex in ('0', '1'):
                     cases.append(('copy', sk, rel, form, ex))
+    # ---- copy with removal onto a multi-phase destination (same chemicals)
+    for sk in ('S', 'Msame', 'Mother', 'Mmore'):
+        for form in ('*', 'str', 'seq'):
+            for ex in ('0', '1'):
+                for php in ('*', 'p'):
+                    cases.append(('mcopy', sk, form, ex, php))
     return cases
 
 
@@ -693,6 +787,23 @@ def make_grid_case(rng, spec):
         ops.append(gen_new(rng, pkgs, ypkg, yk, yph if yk == 'M' else rng.choice(yph), empty=ye))
         ops.append('mix 0 1,2')
         ops.append('sep 0 2')
+    elif kind == 'mcopy':
+        _, sk, form, ex, php = spec
+        dph = ''.join(rng.sample(PHASES, rng.choice([2, 3])))
+        ops.append(gen_new(rng, pkgs, 0, 'M', dph, empty=rng.random() < 0.6))
+        if sk == 'S': ops.append(gen_new(rng, pkgs, 0, 'S', rng.choice(dph), empty=False))
+        elif sk == 'Msame': ops.append(gen_new(rng, pkgs, 0, 'M', dph, empty=False))
+        elif sk == 'Mother':
+            sph = ''.join(rng.sample(PHASES, len(dph)))
+            ops.append(gen_new(rng, pkgs, 0, 'M', sph, empty=False))
+        else:
+            extra = [p for p in PHASES if p not in dph]
+            ops.append(gen_new(rng, pkgs, 0, 'M', dph + rng.choice(extra), empty=False))
+        sp_ = pkgs[0]
+        if form == '*': ids = '*'
+        elif form == 'str': ids = '=' + str(rng.choice(sp_))
+        else: ids = ','.join(map(str, rng.sample(sp_, rng.randrange(1, len(sp_) + 1))))
+        ops.append(f'copy 0 1 {ids} 1 {ex} {"*" if php == "*" else rng.choice(dph)}')
     else:
         _, sk, rel, form, ex = spec
         spkg = 0 if rel == 'same' else rng.choice([1, 2])
@@ -751,6 +862,14 @@ def corpus():
         # copy_flow corner cases
         Case(P + ['new 0 S l 1,1,1,1,1,1', 'new 1 S g 2,3,0', 'copy 0 1 =0 1 0']),
         Case(P + ['new 1 S l 1,1,1', 'new 1 S g 2,3,4', 'copy 0 1 =1 1 1']),
+        # two splits with different phase tuples into the same multi-phase outlet (stale phase views, C12-1)
+        Case(P + ['new 0 M gl 0,0,0,0,0,0;0,4,0,0,0,0', 'new 0 M ls 0,8,0,0,0,0;0,0,2,0,0,0', 'new 0 M gl 0,0,0,0,0,0;0,0,0,0,0,0',
+                  'new 0 S l 0,0,0,0,0,0', 'split 0 2 3 s 1/2', 'split 1 2 3 s 1/2']),
+        # MultiStream.copy_flow: whole stream, equally many phases; then the three mirrored defects
+        Case(P + ['new 0 M gl 1,1,1,1,1,1;0,0,0,0,0,0', 'new 0 M Ls 0,2,0,0,0,0;0,0,0,0,3,0', 'copy 0 1 * 1 0 *']),
+        Case(['pkg 0,1,2', 'new 0 M gl 0,0,0;0,0,0', 'new 0 M gls 0,0,0;0,0,0;0,5,0', 'copy 0 1 * 1 0 *']),
+        Case(['pkg 0,1,2', 'new 0 M gl 0,0,0;0,0,0', 'new 0 S g 1,2,3', 'copy 0 1 1 1 1 l']),
+        Case(['pkg 0,1,2', 'new 0 M gl 0,0,0;0,0,0', 'new 0 S l 1,2,3', 'copy 0 1 * 1 1 *']),
     ]
 
 
